@@ -16,12 +16,14 @@ def run(chk):
         "scenarios = client (generic, Binance with a user-data channel, Bitstamp public / private) x initial and late "
         "registrations x per-connection server scripts (channel messages, error replies, unknown and garbage frames, "
         "listen-key expiry, close, abrupt drop, reconnect request) x slow SUBSCRIBE handshakes x failing listen-key "
-        "creation / connection attempts; non-trivial = at least one fault or late registration")
+        "creation (HTTP 400/401/403/418/429/500 answers, time-outs, resets, other errors) / connection attempts; a few "
+        "Binance clients with 200-400 registered streams; non-trivial = at least one fault or late registration")
     rnd = common.rng_for(chk.seed, "C18")
     n = common.tier_n(chk.tier, 500, 10000)
     items, owners = [], []
-    for _ in range(n):
-        sc0 = wd.gen_scenario(rnd)
+    n_many = common.tier_n(chk.tier, 3, 20)
+    for i in range(n + n_many):
+        sc0 = wd.gen_scenario(rnd) if i < n else wd.gen_many_channels(rnd)
         sc = wd.concretise(sc0, sc0["client"])
         log, ad = wd.run_scenario(sc)
         faults = len(sc["scripts"]) > 1 or bool(sc["registrations"]) or any(s and s[0] == "msg" for scr in sc["scripts"] for s in scr)
